@@ -231,7 +231,7 @@ def _w_counts(res, p):
         records.append(("counts-sum-to-shots",) + ex.prove(sum(names.values()) == len(m.bitstrings)))
         dist = m.get_distribution().distribution_dict
         N = len(m.bitstrings)
-        okd = all(abs(dist[tuple(int(ch) for ch in k)] - got[k] / N) <= 1e-12 for k in got) and len(dist) == len(got)
+        okd = all(abs(dist.get(tuple(int(ch) for ch in k), float('nan')) - got[k] / N) <= 1e-12 for k in got) and len(dist) == len(got)
         records.append(("distribution-is-counts-over-shots",) + ex.prove(z3.BoolVal(okd)))
         m2 = Measurements.from_counts(got)
         records.append(("get_counts-from_counts-inverse",) + ex.prove(z3.BoolVal(m2.get_counts() == got and sorted(m2.bitstrings) == sorted(m.bitstrings))))
@@ -252,8 +252,32 @@ def _w_counts(res, p):
             records.append((f"counts-follow-the-shots-after-{how}-growth",) + ex.prove(cl))
             dn = m.get_distribution().distribution_dict
             Nn = len(m.bitstrings)
-            okn = all(abs(dn[tuple(int(ch) for ch in k)] - now[k] / Nn) <= 1e-12 for k in now) and len(dn) == len(now)
+            okn = all(abs(dn.get(tuple(int(ch) for ch in k), float('nan')) - now[k] / Nn) <= 1e-12 for k in now) and len(dn) == len(now)
             records.append((f"distribution-follows-the-shots-after-{how}-growth",) + ex.prove(z3.BoolVal(okn)))
+        # ... then change the shots WITHOUT making the list longer (one entry overwritten in place, the list replaced by one of
+        # the same length, the list shortened), querying after every step: the histogram is that of the shots held now
+        import collections
+
+        other = tuple(1 - b for b in extra)
+        for how in ("entry-overwritten", "same-length-replacement", "shortening", "caller-side-edit"):
+            if how == "entry-overwritten":
+                m.bitstrings[0] = other
+            elif how == "same-length-replacement":
+                m.bitstrings = [other if i % 2 else extra for i in range(len(m.bitstrings))]
+            elif how == "shortening":
+                m.bitstrings = list(m.bitstrings)[: max(1, len(m.bitstrings) - 2)]
+            else:
+                mine = [extra, extra, other]
+                m = Measurements(mine)
+                m.get_counts()
+                mine[0] = other  # the caller edits the list it handed over
+            want = dict(collections.Counter("".join(str(b) for b in shot) for shot in m.bitstrings))
+            now = m.get_counts()
+            records.append((f"counts-follow-the-shots-after-{how}",) + ex.prove(z3.BoolVal(dict(now) == want and sum(now.values()) == len(m.bitstrings))))
+            dn = m.get_distribution().distribution_dict
+            Nn = len(m.bitstrings)
+            okn = all(abs(dn.get(tuple(int(ch) for ch in k), float('nan')) - want[k] / Nn) <= 1e-12 for k in want) and len(dn) == len(want)
+            records.append((f"distribution-follows-the-shots-after-{how}",) + ex.prove(z3.BoolVal(okn)))
         return got
 
     ex = ST.Explorer(base=base, timeout_ms=8000, int_bounds=(0, 3))
